@@ -650,6 +650,89 @@ def r12i(ctx, reg):
                            f"property {c.name}.{name}: the getter reads {sorted(R)} but the setter writes {sorted(W)} — no attribute or element in common")
 
 
+def r12j(ctx, reg):
+    """A constructor does not wipe what it has just stored.
+
+    Some setters and helpers rebuild the element from scratch (`self.clear()` reachable from them: `Annotation.note_body` with an Element
+    body, the typed-value setters of Cell/Variable…).  In a constructor such a store must come before every other store on `self`:
+    whatever was written earlier — attributes, dc:creator, dc:date — is removed again, and the constructor parameter that produced it is
+    silently dropped for that input shape.  Rule: in every element class __init__, no store/call on self that may reach `self.clear()` is
+    reachable (CFG) from an earlier store/call on self.
+    """
+    from ..paths import cfg_of, node_of
+    repo = ctx.repo
+    ctx.rule("R12j", "in a constructor, a store that may rebuild the element (reaches self.clear()) precedes every other store on self", floor=50)
+    memo: dict = {}
+
+    def destructive(c, name, kind, depth=0, seen=()):
+        """the clearing call chain `name → … → clear`, or None"""
+        key = (c.name, name, kind)
+        if key in memo:
+            return memo[key]
+        if depth > 3 or key in seen:
+            return None
+        f = c.lookup(name, kind)
+        res = None
+        if f is not None and f.name != "__init__":
+            for n in walk_no_nested(f.node):
+                if isinstance(n, ast.Call) and isinstance(n.func, ast.Attribute) and isinstance(n.func.value, ast.Name) and n.func.value.id == "self":
+                    if n.func.attr == "clear":
+                        res = [f"{f.ident}:{n.lineno} self.clear()"]
+                        break
+                    sub = destructive(c, n.func.attr, None, depth + 1, seen + (key,))
+                    if sub:
+                        res = [f"{f.ident}:{n.lineno} self.{n.func.attr}()"] + sub
+                        break
+                elif isinstance(n, ast.Assign) and len(n.targets) == 1 and isinstance(n.targets[0], ast.Attribute) and isinstance(n.targets[0].value, ast.Name) \
+                        and n.targets[0].value.id == "self":
+                    sub = destructive(c, n.targets[0].attr, "setter", depth + 1, seen + (key,))
+                    if sub:
+                        res = [f"{f.ident}:{n.lineno} self.{n.targets[0].attr} = …"] + sub
+                        break
+        if depth == 0:
+            memo[key] = res
+        return res
+
+    for c in element_classes(repo):
+        inits = c.methods.get("__init__", [])
+        if not inits:
+            continue
+        f = inits[0]
+        props = property_names(repo, c)
+        muts = []  # (stmt, label, chain)
+        for st in walk_no_nested(f.node):
+            if isinstance(st, ast.Assign) and len(st.targets) == 1 and isinstance(st.targets[0], ast.Attribute) and isinstance(st.targets[0].value, ast.Name) \
+                    and st.targets[0].value.id == "self" and props.get(st.targets[0].attr) in ("property", "propdef"):
+                muts.append((st, f"self.{st.targets[0].attr} = …", destructive(c, st.targets[0].attr, "setter")))
+            elif isinstance(st, (ast.Expr, ast.Assign)) and isinstance(st.value, ast.Call) and isinstance(st.value.func, ast.Attribute) and isinstance(st.value.func.value, ast.Name) \
+                    and st.value.func.value.id == "self" and not st.value.func.attr.startswith("__") and not st.value.func.attr.startswith("get"):
+                muts.append((st, f"self.{st.value.func.attr}(…)", destructive(c, st.value.func.attr, None)))
+        if not muts:
+            continue
+        cfg = cfg_of(f)
+        dest = [(st, lab, ch) for st, lab, ch in muts if ch]
+        bad = None
+        for st, lab, ch in dest:
+            dn = node_of(cfg, st)
+            for st2, lab2, _ in muts:
+                if st2 is st:
+                    continue
+                n2 = node_of(cfg, st2)
+                if n2 is not None and dn is not None and dn.id in cfg.reach_from(n2):
+                    bad = (st, lab, ch, st2, lab2)
+                    break
+            if bad:
+                break
+        ctx.instance("R12j", f"{f.file}:{f.ident}", f"{len(muts)} store(s) on self, {len(dest)} may rebuild the element" + (f": {dest[0][1]} first" if dest and not bad else ""),
+                     ok=bad is None, nontrivial=bool(dest), line=f.node.lineno)
+        if bad:
+            st, lab, ch, st2, lab2 = bad
+            ctx.report("R12j", f, st, f"{lab} after {lab2}",
+                       f"{c.name}.__init__ stores `{lab2}` (line {st2.lineno}) and afterwards `{lab}`, which can rebuild the element from scratch ({' → '.join(ch)}): "
+                       f"what the earlier stores wrote is removed again, so those constructor parameters are lost for that input",
+                       path=ch)
+
+
 def run(ctx):
     reg = build_registry(ctx.repo)
     ctx.extra["registry"] = {"modules_in_import_order": len(reg.order), "registrations": len(reg.regs), "tags": len(reg.tag2cls),
@@ -662,11 +745,21 @@ def run(ctx):
     r12f(ctx, reg)
     r12gh(ctx, reg)
     r12i(ctx, reg)
+    r12j(ctx, reg)
 
 
 from ..selftest import Seed, unparse_seed  # noqa: E402
 
 SEEDS = [
+    Seed("Annotation sets its body last", "fault", "src/odfdo/note.py",
+         "            self.note_body = text_or_element  # type:ignore\n            if creator:\n                self.creator = creator\n",
+         "            if creator:\n                self.creator = creator\n            self.note_body = text_or_element  # type:ignore\n", "R12j"),
+    Seed("Cell sets its style before its value", "fault", "src/odfdo/cell.py",
+         "            if style is not None:\n                self.style = style\n\n    def __repr__", "            pass\n\n    def __repr__", "R12j",
+         edits=[("src/odfdo/cell.py", "        if self._do_init:\n            self.set_value(\n                value,", "        if self._do_init:\n            if style is not None:\n                self.style = style\n            self.set_value(\n                value,")]),
+    Seed("Annotation stores its name before the creator", "neutral", "src/odfdo/note.py",
+         "            if creator:\n                self.creator = creator\n            if date is None:\n                date = datetime.now()\n            self.date = date\n            if not name:\n                name = get_unique_office_name(parent)\n            self.name = name\n",
+         "            if not name:\n                name = get_unique_office_name(parent)\n            self.name = name\n            if creator:\n                self.creator = creator\n            if date is None:\n                date = datetime.now()\n            self.date = date\n"),
     Seed("unregister Section", "fault", "src/odfdo/section.py", "register_element_class(Section)\n", "", "R12a"),
     Seed("Span registered for text:a too (shadowing Link)", "fault", "src/odfdo/paragraph.py",
          "register_element_class(Span)", 'register_element_class_list(Span, ("text:span", "text:a"))', "R12a"),
